@@ -1,6 +1,9 @@
 package mon
 
 import (
+	"fmt"
+	"math/big"
+
 	"verifh/gen"
 	"verifh/model"
 )
@@ -35,6 +38,7 @@ func LookalikeStreams() [][]*model.Value {
 		{foo(), model.StructV(f("imports", model.SymV(T("$ion_symbol_table"))), f("symbols", model.ListV(model.StrV("zz")))).WithAnn(T("x"), T("$ion_symbol_table")), foo(), bar()},
 	}
 	all = append(all, deepSiblingStreams()...)
+	all = append(all, longTailStreams()...)
 	var out [][]*model.Value
 	for _, s := range all {
 		ok := true
@@ -78,6 +82,33 @@ func deepSiblingStreams() [][]*model.Value {
 			}
 			out = append(out, []*model.Value{build(1), model.Int64V(int64(d))})
 		}
+	}
+	return out
+}
+
+// longTailStreams start with small lobs, strings, big ints and timestamps and go on for two or
+// three more buffers' worth of data: whatever a reader hands out for the early values must survive
+// its reading on (a refill of its input buffer, re-used scratch space).
+func longTailStreams() [][]*model.Value {
+	var out [][]*model.Value
+	big1, _ := new(big.Int).SetString("36893488147419103232", 10)
+	big2, _ := new(big.Int).SetString("-340282366920938463463374607431768211457", 10)
+	for _, n := range []int{150, 400} {
+		head := []*model.Value{
+			model.BlobV([]byte("0123456789abcdef")), model.ClobV([]byte("clob bytes here")), model.StrV("an early string"),
+			model.IntV(big1), model.IntV(big2), model.SymV(model.T("early_symbol")),
+			model.StructV(model.BlobV([]byte("key-0001")).WithField(model.T("key")), model.IntV(big1).WithField(model.T("n")), model.ListV(model.BlobV([]byte{1, 2, 3}), model.ClobV([]byte("xyz"))).WithField(model.T("l"))),
+		}
+		tail := model.ListV()
+		for i := 0; i < n; i++ {
+			tail.Kids = append(tail.Kids, model.StrV(fmt.Sprintf("filler string number %04d ........................", i)), model.Int64V(int64(i)*1000003))
+		}
+		s := append(append([]*model.Value{}, head...), tail, model.BlobV([]byte("late blob")), model.IntV(big2))
+		out = append(out, s)
+		// the same with the tail as top-level values (Decoder streams)
+		s2 := append([]*model.Value{}, model.CloneAll(head)...)
+		s2 = append(s2, model.CloneAll(tail.Kids)...)
+		out = append(out, append(s2, model.ClobV([]byte("late clob"))))
 	}
 	return out
 }
